@@ -151,7 +151,7 @@ def jobs(tier, seed, excluded=()):
         budget, nparts, tmo = 30, 1, 60
     else:
         big = ["T01", "T02", "T03", "T04", "T05", "T06", "T07", "T08", "T09", "T10", "T11", "T12", "T15"] + ["R%d" % (1000 * seed + j) for j in range(8)]
-        budget, nparts, tmo = 900, 3, 400
+        budget, nparts, tmo = 100, 3, 200
     for tid in etrees + big:
         slots = ST.layout(tid)
         targets = [i for i, sl in enumerate(slots) if sl.kind != "pick"]
